@@ -45,8 +45,10 @@ type rewriter struct {
 	usedVs  bool
 	extra   map[string]string // import path -> replacement path (adoption)
 	mapNames map[string]bool  // identifiers / field names declared with a map type in this package
+	fieldWr  map[ast.Node]bool // map-typed field selectors that are assigned to
 	skipSel map[ast.Node]bool // comm statements handled by their select
 	recv2   map[ast.Node]bool // unary recv expressions in a 2-value context
+	importNames map[string]bool
 }
 
 func (r *rewriter) off(p token.Pos) int { return r.fset.Position(p).Offset }
@@ -56,8 +58,52 @@ func (r *rewriter) text(from, to token.Pos) string { return string(r.src[r.off(f
 func (r *rewriter) collect() {
 	r.skipSel = map[ast.Node]bool{}
 	r.recv2 = map[ast.Node]bool{}
+	r.importNames = map[string]bool{}
+	for _, im := range r.file.Imports {
+		p, _ := strconv.Unquote(im.Path.Value)
+		name := p[strings.LastIndex(p, "/")+1:]
+		if im.Name != nil {
+			name = im.Name.Name
+		}
+		r.importNames[name] = true
+	}
+	r.fieldWr = map[ast.Node]bool{}
+	var stack []ast.Node
 	ast.Inspect(r.file, func(n ast.Node) bool {
+		if n == nil {
+			stack = stack[:len(stack)-1]
+			return true
+		}
+		stack = append(stack, n)
+		var parent ast.Node
+		if len(stack) >= 2 {
+			parent = stack[len(stack)-2]
+		}
 		switch n := n.(type) {
+		case *ast.SelectorExpr:
+			if r.mapNames[n.Sel.Name] {
+				if _, isPkg := n.X.(*ast.Ident); isPkg && r.importNames[n.X.(*ast.Ident).Name] {
+					break
+				}
+				skip := false
+				switch p := parent.(type) {
+				case *ast.AssignStmt:
+					for _, l := range p.Lhs {
+						if l == ast.Expr(n) {
+							r.fieldWr[n] = true
+						}
+					}
+				case *ast.UnaryExpr:
+					skip = p.Op == token.AND
+				case *ast.SelectorExpr:
+					skip = p.X == ast.Expr(n) // X.f.g: f is not the map itself
+				case *ast.KeyValueExpr:
+					skip = p.Key == ast.Expr(n)
+				}
+				if !skip {
+					r.targets = append(r.targets, n)
+				}
+			}
 		case *ast.ImportSpec:
 			p, _ := strconv.Unquote(n.Path.Value)
 			if _, ok := shims[p]; ok {
@@ -75,6 +121,9 @@ func (r *rewriter) collect() {
 			}
 		case *ast.CallExpr:
 			if id, ok := n.Fun.(*ast.Ident); ok && id.Name == "close" && len(n.Args) == 1 {
+				r.targets = append(r.targets, n)
+			}
+			if id, ok := n.Fun.(*ast.Ident); ok && id.Name == "delete" && len(n.Args) == 2 && r.isMapExpr(n.Args[0]) {
 				r.targets = append(r.targets, n)
 			}
 		case *ast.RangeStmt:
@@ -170,9 +219,19 @@ func (r *rewriter) rewrite(n ast.Node) string {
 			f = "__vs.Recv2("
 		}
 		return f + r.node(n.X) + ")"
-	case *ast.CallExpr: // close(x)
+	case *ast.CallExpr: // close(x) / delete(m, k)
 		r.usedVs = true
+		if n.Fun.(*ast.Ident).Name == "delete" {
+			return "__vs.MapDel(" + r.node(n.Args[0]) + ", " + r.node(n.Args[1]) + ")"
+		}
 		return "__vs.Close(" + r.node(n.Args[0]) + ")"
+	case *ast.SelectorExpr: // map-typed field: record the access for the race detector
+		r.usedVs = true
+		inner := r.inner(n.Pos(), n.End(), n)
+		if r.fieldWr[n] {
+			return "*__vs.WrM(&" + inner + ")"
+		}
+		return "(*__vs.RdM(&" + inner + "))"
 	case *ast.GoStmt:
 		r.usedVs = true
 		c := n.Call
